@@ -115,8 +115,8 @@ def corrupt(data, rng):
         hs = [m for m in re.finditer(rb'^#[.a-z]+:.*$', data, re.M)]
         if hs:
             m = rng.choice(hs)
-            i = rng.randrange(m.start(), m.end() + 1)
-            return data[:i] + rng.choice([b'\xc3\xa9', b'\xff', b'\x00', b' ', b'\t', b',', b'=', b'#', b'%', b'%d', b'%s', b'%(x)s', b'{0}', b'\\', b'"', b"'"]) + data[i:]
+            i = m.start() if rng.random() < 0.2 else rng.randrange(m.start(), m.end() + 1)     # also right in front of the '#'
+            return data[:i] + rng.choice([b'\xc3\xa9', b'\xff', b'\x00', b' ', b'\t', b',', b'=', b'#', b'\xef\xbb\xbf', b'\xff\xfe', b'%', b'%d', b'%s', b'%(x)s', b'{0}', b'\\', b'"', b"'"]) + data[i:]
     if r < 0.94:
         # drop / duplicate a whole line
         lines = data.split(b'\n')
